@@ -21,8 +21,19 @@ func TestVerifC13API(t *testing.T) {
 	r := vk.Start(t, "C13")
 	defer r.Finish()
 	r.Expect("api:mutex", "api:bool", "api:set", "api:clear", "api:import", "api:import-repeat-conflict", "api:import-over-existing", "api:import-clear")
-	m := test.MustRunCommand()
-	defer m.Close()
+	// VERIF_ESRV_NODES=3: the same leg against a real 3-node gossip/HTTP cluster (replicas 2): queries through a
+	// drawn node, imports to a drawn owner of the shard (as the client library does)
+	nodes := []*test.Command{}
+	if vrcNodes() > 1 {
+		cl := vrcStart(t, vrcNodes(), 2)
+		defer cl.Close()
+		nodes = cl
+	} else {
+		one := test.MustRunCommand()
+		defer one.Close()
+		nodes = append(nodes, one)
+	}
+	m := nodes[0]
 	ctx := context.Background()
 	gen := 0
 	n := r.N(400, 16000)
@@ -60,7 +71,7 @@ func TestVerifC13API(t *testing.T) {
 			got := map[uint64][]uint64{} // col -> rows
 			for row := 0; row < nrows; row++ {
 				pq := fmt.Sprintf("Row(x=%s)", rowLit(uint64(row)))
-				resp, err := m.API.Query(ctx, &pilosa.QueryRequest{Index: index, Query: pq})
+				resp, err := nodes[rng.Intn(len(nodes))].API.Query(ctx, &pilosa.QueryRequest{Index: index, Query: pq})
 				if err != nil {
 					r.Fail("read-error:"+kind, id, fmt.Sprintf("%s: %v", pq, err), wit())
 					return false
@@ -97,7 +108,7 @@ func TestVerifC13API(t *testing.T) {
 				c, row := cols[rng.Intn(len(cols))], uint64(rng.Intn(nrows))
 				pq := fmt.Sprintf("Set(%d, x=%s)", c, rowLit(row))
 				ops = append(ops, pq)
-				if _, err := m.API.Query(ctx, &pilosa.QueryRequest{Index: index, Query: pq}); err != nil {
+				if _, err := nodes[rng.Intn(len(nodes))].API.Query(ctx, &pilosa.QueryRequest{Index: index, Query: pq}); err != nil {
 					r.Fail("write-error:"+kind, id, fmt.Sprintf("%s: %v", pq, err), wit())
 					return
 				}
@@ -111,7 +122,7 @@ func TestVerifC13API(t *testing.T) {
 				c, row := cols[rng.Intn(len(cols))], uint64(rng.Intn(nrows))
 				pq := fmt.Sprintf("Clear(%d, x=%s)", c, rowLit(row))
 				ops = append(ops, pq)
-				if _, err := m.API.Query(ctx, &pilosa.QueryRequest{Index: index, Query: pq}); err != nil {
+				if _, err := nodes[rng.Intn(len(nodes))].API.Query(ctx, &pilosa.QueryRequest{Index: index, Query: pq}); err != nil {
 					r.Fail("write-error:"+kind, id, fmt.Sprintf("%s: %v", pq, err), wit())
 					return
 				}
@@ -149,10 +160,23 @@ func TestVerifC13API(t *testing.T) {
 				ops = append(ops, fmt.Sprintf("Import(shard %d rows=%v cols=%v clear=%v)", sh, req.RowIDs, req.ColumnIDs, clear))
 				rowsCopy, colsCopy := append([]uint64(nil), req.RowIDs...), append([]uint64(nil), req.ColumnIDs...)
 				var err error
-				if clear {
-					err = m.API.Import(ctx, req, pilosa.OptImportOptionsClear(true))
-				} else {
-					err = m.API.Import(ctx, req)
+				// every owner of the shard gets the request, as the client library sends it
+				owners, oerr := m.API.ShardNodes(ctx, index, sh)
+				if oerr != nil {
+					t.Fatal(oerr)
+				}
+				for _, o := range owners {
+					for _, nd := range nodes {
+						if nd.API.Node().ID != o.ID || err != nil {
+							continue
+						}
+						rq := &pilosa.ImportRequest{Index: index, Field: "x", Shard: sh, RowIDs: append([]uint64(nil), rowsCopy...), ColumnIDs: append([]uint64(nil), colsCopy...)}
+						if clear {
+							err = nd.API.Import(ctx, rq, pilosa.OptImportOptionsClear(true))
+						} else {
+							err = nd.API.Import(ctx, rq)
+						}
+					}
 				}
 				if err != nil {
 					r.Fail("write-error:"+kind, id, fmt.Sprintf("import: %v", err), wit())
